@@ -7,7 +7,10 @@ p = '/verif/DESIGN.md'
 s = open(p).read()
 def fmt(n): return f"{n:,}".replace(",", " ")
 out = []
+seen_second = False
 for line in s.split("\n"):
+    if line.startswith("### 0.4"):
+        seen_second = True  # only table 0.3 carries numbers
     m = re.match(r"^\| (C\d\d) \|", line)
     if m and line.count("|") >= 6:
         cid = m.group(1)
